@@ -18,7 +18,7 @@ def gen(rnd):
             msgs.append(scen.gen_message(rnd, big_ok=False))
     frames, completed = scen.wire_plan(rnd, msgs, ctrl_p=0.7)
     body = scen.render(frames)
-    tailkind = rnd.choice(["eof", "eof", "server_close_then_pings", "client_close_then_pings"])
+    tailkind = rnd.choice(["eof", "eof", "server_close_then_pings", "client_close_then_pings", "violation"])
     auto = rnd.random() < 0.75
     app = {}
     # the application reacts to events by sending (these must come after the pong of that event)
@@ -36,6 +36,11 @@ def gen(rnd):
         i = rnd.randrange(2, 4 + len(completed))
         app[i] = app.get(i, []) + [("close", 1000, b"bye")]
         extra = E(9, b"late-ping") + E(9, b"")
+    elif tailkind == "violation":
+        # the stream ends with a frame that violates the protocol, possibly in the same read as the Pings before it: those
+        # Pings arrived first and are owed their event and their Pong
+        extra = rnd.choice([E(3, b""), E(1, b"\xff"), E(9, b"m", mask_key=b"\x01\x02\x03\x04"), E(9, b"x" * 126), E(0, b"orphan"), E(2, b"r", rsv=4),
+                            E(8, b"\x03"), E(8, ref6455.close_payload(1005, b"")), E(9, b"frag", fin=0), E(11, b"")]) + rnd.choice([b"", E(9, b"never")])
     stream = scen.HANDSHAKE + body + extra
     chunks = scen.chunkings(rnd, stream, rnd.choice(["one", "one", "random", "small"]))
     wf = []
@@ -80,7 +85,14 @@ def oracle(sc, tr, extra):
                 elif prev["frame"]["payload"] != x["fields"][0]:
                     out.append("Pong payload %r differs from Ping payload %r" % (prev["frame"]["payload"][:20], x["fields"][0][:20]))
     # every generated stream is a conforming one: a ProtocolError means that a Ping (and all that follows) was lost
-    if any(x["kind"] == "ev" and x["code"] == 13 for x in tl):
+    if sc["_tail"] == "violation":
+        cut = [i for i, x in enumerate(tl) if x["kind"] == "ev" and x["code"] == 13]
+        got = [[x["code"]] + x["fields"] for x in (tl[:cut[0]] if cut else tl) if x["kind"] == "ev" and x["code"] in (6, 7, 8, 9)]
+        if got != list(sc["_completed"]):
+            npi = len([g for g in got if g[0] == 8])
+            out.append("the stream ends with a protocol violation; the %d messages (%d Pings) that arrived BEFORE it were not all delivered first (%d message events, %d Pings)" % (
+                len(sc["_completed"]), sc["_npings"], len(got), npi))
+    elif any(x["kind"] == "ev" and x["code"] == 13 for x in tl):
         npi = len([x for x in tl if x["kind"] == "ev" and x["code"] == 8])
         out.append("a ProtocolError was raised for a conforming stream with %d Pings, %d of them were delivered: the others were neither delivered nor answered" % (sc["_npings"], npi))
     # the event stream is not disturbed by pongs that cannot be written
@@ -106,7 +118,7 @@ def run(rep, info, model, tier, seed):
         rep.count("pings", min(sc["_npings"], 10))
         rep.count("write_fault", sc["_wf"])
     fam.run_family(rep, model, "C14:pings-anywhere", scs, oracle, project=lambda t: t,
-                   rule="streams with 0-20 Pings (payload 0..125 bytes) at the start, between fragments, back-to-back in one read, after the server's or the client's Close, with failing writes; auto_pong on/off; the application sends in reaction to events; wire order is checked against event order")
+                   rule="streams with 0-20 Pings (payload 0..125 bytes) at the start, between fragments, back-to-back in one read, after the server's or the client's Close, before a protocol violation in the same read, with failing writes; auto_pong on/off; the application sends in reaction to events; wire order is checked against event order")
     if not proof_ok and not rep.violations:
         rep.broken("proof obligation props/C14.v no longer checks: %s" % (rep.coq_failure,))
 
